@@ -1,11 +1,243 @@
+// C12 - no client input crashes the server or a request handler.
+//
+// Tier A (parent process): the pure parsers (codecs.Keyframe, KeyframeDimensions,
+// PacketFlags, RewritePacket, sdpfrag) under recover(), inputs of length 0..1504 in
+// canary-guarded cap==len windows.
+// Tier B (child process per batch, real server): grammar-based websocket messages, every
+// type/kind x field mutation, in every membership state; a canary connection, a fresh join
+// and a bystander in the attacker's group must stay served; a dead child is a crash.
+// Tier C (same child): method x path shape x credentials x header x body over the admin
+// API, WHIP, group pages, recordings and static files, partly hand-written on a raw socket;
+// every request must get a status line and the server log must hold no recovered panic.
 package main
 
 import (
+	"fmt"
+	"os"
+	"path/filepath"
+	"strings"
+	"sync"
+	"time"
+
+	"verif/harness/vclient"
 	"verif/harness/vk"
+	"verif/harness/vsrv"
 )
 
-func main() {
-	run := vk.Start("C12")
-	parserTier(run)
-	run.Finish("exploration", "wip")
+type batchArgs struct {
+	Index     uint64 `json:"index"`
+	Pass      int    `json:"pass"`
+	NB        int    `json:"batches"`
+	SlowKeep  int    `json:"slow_keep"` // keep one case in SlowKeep for the states that cost 200 ms per setup
+	Seq       int    `json:"seq_per_state"`
+	HTTPExtra int    `json:"http_extra"`
+	Malformed int    `json:"malformed"`
+	Whip      int    `json:"whip_sessions"`
 }
+
+func child() {
+	run := vk.Start("C12")
+	var a batchArgs
+	if err := vk.ChildArgs(&a); err != nil || a.NB == 0 {
+		run.Inconclusive("child: bad arguments")
+		os.Exit(0)
+	}
+	static := filepath.Join(os.Getenv("VERIF_GALENE_SRC"), "static") // the real static tree (it has sub-directories)
+	if fi, err := os.Stat(filepath.Join(static, "third-party")); err != nil || !fi.IsDir() {
+		static = ""
+	}
+	srv, err := vsrv.Start(vsrv.Config{Root: os.Getenv("VERIF_CHILD_DIR"), WritableGroups: true, LogToFile: true, StaticDir: static})
+	if err != nil {
+		run.Inconclusive("server start: " + err.Error())
+		os.Exit(0)
+	}
+	writeWSGroups(srv)
+	writeHTTPGroups(srv)
+	if err := os.WriteFile(srv.TokenFile, []byte(tokenFileLines()), 0o600); err != nil {
+		run.Inconclusive("token file: " + err.Error())
+		os.Exit(0)
+	}
+	offer, err := makeOffer()
+	if err != nil {
+		run.Inconclusive("cannot create a valid offer with pion: " + err.Error())
+		os.Exit(0)
+	}
+	w := &world{run: run, srv: srv, batch: a.Index, pass: a.Pass, offer: offer}
+	w.stall.start(run)
+	w.canary, err = dialHS(srv, fmt.Sprintf("canary-b%d", a.Index))
+	if err != nil {
+		run.Inconclusive("canary dial: " + err.Error())
+		os.Exit(0)
+	}
+	if m, ok := w.canary.Join("canary", "op1", "pw-op1"); !ok || m.Str("kind") != "join" {
+		run.Inconclusive(fmt.Sprintf("canary join failed: %v", m))
+		os.Exit(0)
+	}
+	w.checkCanary("before the batch")
+
+	// this batch's share of the case lists
+	perState := map[string][]wsCase{}
+	for _, c := range allWSCases(a.Seq) {
+		if c.N%a.NB != int(a.Index) {
+			continue
+		}
+		if slowStates[c.State] && a.SlowKeep > 1 && (c.N/a.NB)%a.SlowKeep != a.Pass%a.SlowKeep {
+			continue
+		}
+		perState[c.State] = append(perState[c.State], c)
+	}
+	var hcases []httpCase
+	for _, c := range allHTTPCases(run, a.HTTPExtra) {
+		if c.N%a.NB == int(a.Index) {
+			hcases = append(hcases, c)
+		}
+	}
+	hw := &httpWorld{run: run, srv: srv, batch: a.Index, pass: a.Pass, offer: offer}
+
+	var wg sync.WaitGroup
+	for i, st := range wsStates {
+		ln := &lane{w: w, idx: i, state: st, r: run.Rand(30, a.Index, uint64(a.Pass), uint64(i))}
+		wg.Add(1)
+		go func(cs []wsCase) {
+			defer wg.Done()
+			ln.run(cs)
+		}(perState[st])
+	}
+	wg.Add(1)
+	go func() {
+		defer wg.Done()
+		hw.runAll(hcases, a.Malformed, a.Whip)
+	}()
+	wg.Wait()
+	if !w.bad.Load() {
+		w.checkCanary("after the batch")
+	}
+	hw.scanLog()
+	run.Max("max_scheduling_stall_ms", w.stall.maxMS())
+	run.Count("batches_completed", 1)
+	os.Exit(0)
+}
+
+func main() {
+	if _, ok := vk.InChild(); ok {
+		child()
+		return
+	}
+	run := vk.Start("C12")
+	run.MaxReplays = 40
+	nb := 8
+	passes := run.Pick(1, 5)
+	args := batchArgs{NB: nb, SlowKeep: run.Pick(4, 1), Seq: run.Pick(16, 80), HTTPExtra: run.Pick(2, 6), Malformed: run.Pick(40, 120), Whip: run.Pick(6, 20)}
+	type job struct {
+		b    uint64
+		pass int
+	}
+	var jobs []job
+	doParsers := true
+	if rep, ok := vk.ReplayInput(); ok {
+		m, _ := rep["replay"].(map[string]any)
+		if m["tier"] == "parser" {
+			parserReplay(run, m)
+			run.Finish("exploration", "replay of one recorded parser input")
+		}
+		doParsers = false
+		b, _ := m["batch"].(float64)
+		p, _ := m["pass"].(float64)
+		jobs = []job{{uint64(b), int(p)}}
+	} else {
+		for p := 0; p < passes; p++ {
+			for b := 0; b < nb; b++ {
+				jobs = append(jobs, job{uint64(b), p})
+			}
+		}
+	}
+	if doParsers {
+		if !arenaSelfTest() {
+			run.Inconclusive("harness self-test: the canary arena does not notice an out-of-bounds write")
+		}
+		parserTier(run)
+	}
+
+	var wg sync.WaitGroup
+	sem := make(chan struct{}, 8)
+	for _, j := range jobs {
+		wg.Add(1)
+		sem <- struct{}{}
+		go func(j job) {
+			defer wg.Done()
+			defer func() { <-sem }()
+			a := args
+			a.Index, a.Pass = j.b, j.pass
+			res := run.RunChild("batch", a, 25*time.Minute, "GOMAXPROCS=4")
+			switch {
+			case strings.HasPrefix(res.Crash, "harness-crash:"):
+				run.Inconclusive(fmt.Sprintf("batch %d pass %d: a crash without any galene frame on the stack: %s\n%s", j.b, j.pass, res.Crash, res.CrashText))
+			case res.Crash != "":
+				run.Violation(res.Crash, "the server process died while clients were sending hostile input: "+res.Crash,
+					map[string]any{"tier": "server", "batch": j.b, "pass": j.pass, "crash": res.CrashText, "last_commands": res.Notes})
+			case res.TimedOut:
+				run.Inconclusive(fmt.Sprintf("batch %d pass %d: watchdog fired", j.b, j.pass))
+			case res.ExitCode != 0:
+				run.Inconclusive(fmt.Sprintf("batch %d pass %d: child exited with %d", j.b, j.pass, res.ExitCode))
+			}
+		}(j)
+	}
+	wg.Wait()
+
+	if _, replay := vk.ReplayInput(); !replay {
+		floors(run, len(jobs))
+	}
+	run.Assume("liveness of the process is observed through a canary websocket (ping/pong), a fresh join and the exit status of the child process that hosts the server")
+	run.Assume("a recovered handler panic is observed through the 'http: panic serving' lines net/http writes to the server log and through the missing response")
+	run.Assume("RTP/RTCP payloads reach the classifiers through the pure-parser tier only; no SRTP session is established (the WebRTC tier is out of reach of this check)")
+	run.Assume("watchdogs (60 s per ping/request, 25 min per batch) yield inconclusive, never a violation")
+	run.Finish("exploration", "A: chunks of 256 parser inputs from (seed, chunk): uniform bytes, structured RTP header + VP8/VP9/AV1/H264 descriptor with inconsistent fields, valid packets truncated at every length with 0-2 bit flips, mutated sdpfrag texts, each under all 8 codec names round-robin; "+
+		"B: the full list (membership state x message kind x {valid, field x {absent,num,bool,array,object,null,huge,deep,unknown,empty}, kind-specific mutations, raw frames, offer composites, random sequences}) split round-robin over 8 server processes, one lane per state; "+
+		"C: every path shape x 9 methods x {existing,nonexistent} x 4 precondition headers with admin credentials, plus pseudo-random segment/credential/header/body combinations, malformed hand-written requests and WHIP session lives; "+
+		"distinct_nontrivial = distinct (tier, function | message kind | path shape, mutation class, codec | membership state | method+credentials, outcome class) tuples")
+}
+
+func floors(run *vk.Run, jobs int) {
+	run.FloorCounter("parser_inputs", int64(run.Pick(2_000_000, 100_000_000)))
+	for _, g := range genNames {
+		run.FloorCounter("parser_inputs:"+g, int64(run.Pick(50_000, 2_500_000)))
+	}
+	for _, f := range []string{"Keyframe", "KeyframeDimensions", "PacketFlags", "RewritePacket", "sdpfrag.Unmarshal", "sdpfrag.PatchSDP", "sdpfrag.FromSDP"} {
+		run.FloorCounter("calls:"+f, int64(run.Pick(50_000, 2_500_000)))
+	}
+	run.FloorCounter("keyframes_recognised", 10_000)
+	run.FloorCounter("dimensions_reported", 10_000)
+	run.FloorCounter("rewrite_pid_rewritten", 10_000)
+	run.FloorCounter("sdpfrag_parsed_nonempty", 10_000)
+	run.FloorCounter("patchsdp_override", 1_000)
+	run.FloorCounter("base_packets_truncated_at_every_length", 1_000)
+
+	run.FloorCounter("batches_completed", int64(jobs))
+	for _, st := range wsStates {
+		want := int64(jobs) * 100
+		if slowStates[st] {
+			want = int64(jobs) * 20
+		}
+		run.FloorCounter("ws_messages:"+st, want)
+		run.FloorCounter("ws_state_setups:"+st, int64(jobs))
+	}
+	run.FloorCounter("ws_offender_closed", int64(jobs)*100)
+	run.FloorCounter("ws_offender_kept_open", int64(jobs)*100)
+	run.FloorCounter("canary_checks_passed", int64(jobs)*int64(len(wsStates)))
+	run.FloorCounter("bystander_checks_passed", int64(jobs)*200)
+	run.FloorCounter("offers_answered_by_server", int64(jobs)*5)
+	run.FloorCounter("concurrent_joins_by_other_clients", int64(jobs)*5)
+	for _, sh := range httpShapes {
+		run.FloorCounter("http_requests:"+sh.name, int64(jobs)*10)
+	}
+	run.FloorCounter("http_raw_requests", int64(jobs)*100)
+	run.FloorCounter("http_malformed_requests", int64(jobs)*10)
+	run.FloorCounter("http_writes_accepted", int64(jobs)*5)
+	run.FloorCounter("http_status_2xx", int64(jobs)*50)
+	run.FloorCounter("http_status_4xx", int64(jobs)*50)
+	run.FloorCounter("whip_sessions_created", int64(jobs)*3)
+	run.FloorCounter("whip_trickle_accepted", 1)
+	run.FloorCounter("server_log_scans", int64(jobs))
+}
+
+var _ = vclient.Tick
